@@ -1,6 +1,8 @@
 (* Properties_C12.v — rwp::Resource lets readers share: no reader waits without a writer.
    Only statements, each closed by [exact <lemma of ResourceProofs>], and Print Assumptions. *)
 From Coq Require Import List ZArith Bool Lia.
+From Tulz Require Import RaceModel AtomicSections.
+From TulzGen Require Import Accesses.
 From Tulz Require Import Common ResourceModel ResourceInv ResourceLemmas ResourceProofs ResourceOrder.
 Import ListNotations.
 Local Open Scope Z_scope.
@@ -47,3 +49,15 @@ Example C12_nonvacuous :
   map tstate_z (thr (run true (init 4) [Req 0 Wr; Req 1 Rd; Req 2 Rd; Req 3 Rd; Rel 0]))
   = [5; 1; 1; 1] /\ activeCount (rs (run true (init 4) [Req 0 Wr; Req 1 Rd; Req 2 Rd; Req 3 Rd; Rel 0])) = 3.
 Proof. vm_compute. split; reflexivity. Qed.
+
+(* The premise of the atomic-step model, checked on the access rows the translator extracted from the
+   CURRENT source (TulzGen.Accesses, regenerated on every run): every access to the Resource's state in
+   Resource::lock / Resource::unlock (and the helpers they call) is made holding m_mutex, hence no two
+   threads are ever inside those sections at once (AtomicSections.v). *)
+Theorem C12_sections_atomic : forall n os t1 t2 a1 a2,
+  t1 <> t2 -> In a1 TulzGen.Accesses.extracted_accesses -> In a2 TulzGen.Accesses.extracted_accesses ->
+  RaceModel.a_comp a1 = resource_component -> RaceModel.a_comp a2 = resource_component ->
+  RaceModel.can_perform (RaceModel.lrun (RaceModel.linit n) os) t1 a1 ->
+  RaceModel.can_perform (RaceModel.lrun (RaceModel.linit n) os) t2 a2 -> False.
+Proof. apply (AtomicSections.sections_exclusive resource_component resource_mutex). vm_compute. reflexivity. Qed.
+Print Assumptions C12_sections_atomic.
